@@ -495,3 +495,30 @@ func appendSites(fn *ssa.Function) []appendSite {
 	})
 	return out
 }
+
+// ruleAppendAlias: append on a slice held in a field of one of the owner types must either start from a
+// fresh slice, be part of constructing the owner, or (build time only) be stored back to the same field.
+func ruleAppendAlias(w *World, r *Report, rule string, owners map[*types.Named]bool, fns []*ssa.Function, reach map[*ssa.Function]bool) {
+	for _, fn := range fns {
+		for _, as := range appendSites(fn) {
+			if as.root.kind != "field" || as.root.owner == nil || !owners[as.root.owner] {
+				continue
+			}
+			construct := fmt.Sprintf("%s append(%s.%s)", w.fname(origin(fn)), as.root.owner.Obj().Name(), as.root.field.Name())
+			if freshBase(as.root.base, 0) {
+				r.OK(rule, construct, as.call.Pos(), "owner object is under construction in this function")
+				continue
+			}
+			_, byValueCopy := as.root.base.(*ssa.Alloc)
+			if as.stored == "same-field" && !reach[fn] && !byValueCopy {
+				r.OK(rule, construct, as.call.Pos(), "result stored back to the same field (build-time accumulation)")
+				continue
+			}
+			if reason, ok := appendExceptions[construct]; ok {
+				r.Except(rule, construct, as.call.Pos(), reason)
+				continue
+			}
+			r.Fail(rule, construct, as.call.Pos(), fmt.Sprintf("append on shared slice %s.%s whose result is not kept by the owner (stored: %s): with spare capacity it writes into the backing array other holders read/append concurrently", as.root.owner.Obj().Name(), as.root.field.Name(), as.stored))
+		}
+	}
+}
